@@ -10,7 +10,7 @@ def _c(category, text, ref, note, technique, engine="hgdrive"):
 
 # families added while red-teaming (appended to the level text of the property)
 EXT = {
-    "C01": " Also: reference selections (readers depend on selector and all targets), collection / map / switch / reduce programs (compiled-edge and forward-scan oracles), and mesh_ programs with pause/resume and captured errors (user code at most once per instance, node and cycle). Round 5: mesh_ instances with two references (diamonds, re-rank when a root gains a dependency on a new key): a reader never keeps a dependency's previous result when both were due in the same scan. Round 6: maps whose pass_through argument comes out of a chain of nodes (the tagged edge still ranks the map after its producer).",
+    "C01": " Also: reference selections (readers depend on selector and all targets), collection / map / switch / reduce programs (compiled-edge and forward-scan oracles), and mesh_ programs with pause/resume and captured errors (user code at most once per instance, node and cycle). Round 5: mesh_ instances with two references (diamonds, re-rank when a root gains a dependency on a new key): a reader never keeps a dependency's previous result when both were due in the same scan. Round 6: maps whose pass_through argument comes out of a chain of nodes (the tagged edge still ranks the map after its producer); dependency cycles closed through a CHAIN of delayed bindings must be rejected too.",
     "C02": " Also: switch / map instances with timers (standalone-instance oracle) and reductions whose combiner graphs schedule themselves (every request of a live combiner honoured at its time). Round 4: keyed-map children that arm their first wake-up from a start hook and read nothing at creation; map_ over dynamic lists with self-scheduling children. Round 5: try_except children with timers and a node that throws (pending wake-ups survive the caught exception). Round 6: mesh_ instances with a self-scheduling node before their mesh reference (wake-ups armed before a pause are owed after the resume).",
     "C03": " Also: packed structured parameters, sample3 with wiring-time passive markers. Round 4: trigger + passive structural bundle behind all-valid / default gates, fully and partially (null-source field) wired. Round 6: a node with two assembled list inputs that switches one of them passive / active at RUN TIME (make_passive): ticks of the passive list alone never run it, the other list still does.",
     "C04": " Also: consumers bound through references (set / dictionary / sibling list elements), int32-keyed and nested-composite shapes, window clears with removed-value / cleared flags. Round 4: dynamic lists (no fixed size); the indices named by a list's own per-tick delta. Round 5: explicit invalidation of whole list / bundle / dictionary endpoints. Round 6: sets assigned as a whole (copy_value_from), also as dictionary / bundle children.",
